@@ -2,6 +2,10 @@ package main
 
 import (
 	"math/rand/v2"
+	"sort"
+	"strings"
+	"sync"
+	"sync/atomic"
 	"net/http"
 	"net/http/httptest"
 	"net/url"
@@ -17,11 +21,13 @@ func init() {
 		Level: "exploration",
 		Rule: "Rebalancer(RoundRobin) with scripted meters (rating in [0,1], readiness) on the frozen clock: pools of 2-7 servers, configured weights from {1,2,3,5,100,1024,4096,5000}, back-off 1s/10s/60s, rating histories (one/many failing, recovering, flapping, all failing, ties), membership and re-weight operations at random points, 200-2000 requests with clock steps around the timer boundary; " +
 			"after every request the observed ServerWeight vector is checked for: range [1, max(4096,configured)], >= 1 back-off between changes, no outlier share increase at an adjustment with a non-trivial split (library's SplitFloat64(1.5,0,ratings)), configured weights right after membership changes, bounded progress P1 (outlier loses share within 2 back-offs) and P2 (proportional again within 6 adjustments / 9 back-offs); a smaller share runs the default code meters with failing backends; " +
+			"part conc (race detector, real clock, 1ms back-off, a Logger that yields inside every log call): requests finishing (and adjusting weights) race with re-weight / remove / add calls; at the quiescent point membership and weight range are checked, then with equal ratings and one request per 2 back-offs the weights must be proportional to the configured ones within 6 adjustments; " +
 			"non-trivial = history with >= 2 observed adjustments of which >= 1 with outliers; distinct by (weights, back-off, script)",
 		Assumptions: []string{"frozen library clock (hook)", "liveness restated as bounded progress on logical time (P1, P2) under the stated side conditions"},
 		Parts: []Part{
 			{Name: "scripted", Shards: 12, Fn: c10Scripted},
 			{Name: "codemeter", Shards: 4, Fn: c10CodeMeter},
+			{Name: "conc", Race: true, Shards: 4, Fn: c10Conc},
 		},
 	})
 }
@@ -48,7 +54,13 @@ func c10Scripted(c *Ctx) {
 		freeze(baseTime.Add(time.Duration(r.Int64N(1e9))))
 		defer unfreeze()
 		var pending []*scriptedMeter
-		rr, _ := roundrobin.New(http.HandlerFunc(func(w http.ResponseWriter, req *http.Request) {}))
+		// a slow backend: time passes while the request is being served
+		var inRequest time.Duration
+		rr, _ := roundrobin.New(http.HandlerFunc(func(w http.ResponseWriter, req *http.Request) {
+			if inRequest > 0 {
+				advance(inRequest)
+			}
+		}))
 		rb, err := roundrobin.NewRebalancer(rr, roundrobin.RebalancerBackoff(backoff), roundrobin.RebalancerMeter(func() (roundrobin.Meter, error) {
 			m := &scriptedMeter{ready: true}
 			pending = append(pending, m)
@@ -259,10 +271,19 @@ func c10Scripted(c *Ctx) {
 				step = backoff / 3
 			}
 			advance(step)
+			inRequest = 0
+			if !tail && r.IntN(10) == 0 {
+				inRequest = time.Duration(r.Int64N(int64(backoff)/20 + 1))
+				if r.IntN(3) == 0 {
+					inRequest = time.Duration(r.Int64N(int64(3*backoff) + 1))
+				}
+				c.Count("requests_during_which_time_passed", 1)
+			}
+			rb.ServeHTTP(httptest.NewRecorder(), httptest.NewRequest("GET", "http://c.test/", nil))
+			// weights are adjusted when a request has finished: all instants below are request-end instants
 			tnow := now()
 			gapOK := tnow.Sub(lastReq) <= backoff/2
 			lastReq = tnow
-			rb.ServeHTTP(httptest.NewRecorder(), httptest.NewRequest("GET", "http://c.test/", nil))
 			c.Count("requests", 1)
 			cur, ok := weights()
 			if !ok {
@@ -522,4 +543,175 @@ func c10CodeMeter(c *Ctx) {
 		}
 	})
 	c.Require("codemeter_adjustments", 1)
+}
+
+// c10Conc: weight adjustments made by finishing requests race with administration. Whatever the interleaving, once
+// everything is quiet the pool is the configured one, weights are in range, and - ratings equal, meters ready - the
+// weights return to the configured proportions within six adjustments (one request every 2 back-offs of real time;
+// time.Sleep never returns early, so each of those requests finds the back-off timer expired).
+func c10Conc(c *Ctx) {
+	c.Cases("conc", c.N(60, 1500), func(i int, r *rand.Rand) {
+		const backoff = time.Millisecond
+		var mmu sync.Mutex
+		var created []*scriptedMeter
+		rr, _ := roundrobin.New(http.HandlerFunc(func(w http.ResponseWriter, req *http.Request) {}))
+		yl := &yieldLogger{}
+		yl.seed.Store(r.Uint64())
+		rb, err := roundrobin.NewRebalancer(rr, roundrobin.RebalancerBackoff(backoff), roundrobin.RebalancerLogger(yl), roundrobin.RebalancerMeter(func() (roundrobin.Meter, error) {
+			m := &scriptedMeter{ready: true}
+			mmu.Lock()
+			created = append(created, m)
+			mmu.Unlock()
+			return m, nil
+		}))
+		if err != nil {
+			c.Violation("constructor", err.Error(), nil)
+			return
+		}
+		conf := map[string]int{}
+		urlOf := func(k int) *url.URL { return mustURL(sfmt("http://b%d.test/", k)) }
+		n := 2 + r.IntN(4)
+		for k := 0; k < n; k++ {
+			w := pick(r, []int{1, 1, 2, 3, 5})
+			if err := rb.UpsertServer(urlOf(k), roundrobin.Weight(w)); err != nil {
+				c.Violation("upsert/error", err.Error(), nil)
+				return
+			}
+			conf[urlOf(k).Host] = w
+		}
+		var stop atomic.Bool
+		var wg sync.WaitGroup
+		var served atomic.Int64
+		for g := 0; g < 6; g++ {
+			wg.Add(1)
+			go func() {
+				defer wg.Done()
+				for !stop.Load() {
+					rb.ServeHTTP(httptest.NewRecorder(), httptest.NewRequest("GET", "http://c.test/", nil))
+					served.Add(1)
+				}
+			}()
+		}
+		// ratings keep changing so that adjustments keep happening
+		wg.Add(1)
+		shSeed := r.Uint64()
+		go func() {
+			defer wg.Done()
+			sr := rand.New(rand.NewPCG(shSeed, 11))
+			for !stop.Load() {
+				mmu.Lock()
+				ms := append([]*scriptedMeter(nil), created...)
+				mmu.Unlock()
+				bad := sr.IntN(len(ms))
+				for k, m := range ms {
+					rt := 0.0
+					if k == bad || sr.IntN(5) == 0 {
+						rt = 0.9
+					}
+					m.set(rt, true)
+				}
+				time.Sleep(300 * time.Microsecond)
+			}
+		}()
+		var ops []string
+		nops := 40 + r.IntN(120)
+		for s := 0; s < nops; s++ {
+			k := r.IntN(6)
+			u := urlOf(k)
+			_, present := conf[u.Host]
+			switch {
+			case present && len(conf) > 2 && r.IntN(3) == 0:
+				if err := rb.RemoveServer(u); err != nil {
+					c.Violation("remove/error", err.Error(), map[string]any{"ops": ops})
+					stop.Store(true)
+					wg.Wait()
+					return
+				}
+				delete(conf, u.Host)
+				ops = append(ops, "remove "+u.Host)
+			default:
+				w := pick(r, []int{1, 1, 2, 3, 5, 100})
+				if err := rb.UpsertServer(u, roundrobin.Weight(w)); err != nil {
+					c.Violation("upsert/error", err.Error(), map[string]any{"ops": ops})
+					stop.Store(true)
+					wg.Wait()
+					return
+				}
+				conf[u.Host] = w
+				ops = append(ops, sfmt("upsert %s w=%d", u.Host, w))
+			}
+			time.Sleep(time.Duration(r.IntN(400)) * time.Microsecond)
+		}
+		stop.Store(true)
+		wg.Wait()
+		c.Eval()
+		c.Count("conc_requests", served.Load())
+		c.Count("conc_admin_calls", int64(nops))
+		desc := map[string]any{"configured": conf, "last_ops": ops[max(0, len(ops)-20):]}
+		// quiescent: membership
+		var got, want []string
+		for _, u := range rr.Servers() {
+			got = append(got, u.Host)
+		}
+		for h := range conf {
+			want = append(want, h)
+		}
+		sort.Strings(got)
+		sort.Strings(want)
+		if strings.Join(got, ",") != strings.Join(want, ",") {
+			c.Violation("conc/membership", sfmt("after adjustments racing with administration the inner balancer holds %v, the calls made define %v", got, want), desc)
+			return
+		}
+		hosts := want
+		read := func() []int {
+			ws := make([]int, len(hosts))
+			for k, h := range hosts {
+				ws[k], _ = rr.ServerWeight(mustURL("http://" + h + "/"))
+			}
+			return ws
+		}
+		cf := make([]int, len(hosts))
+		for k, h := range hosts {
+			cf[k] = conf[h]
+		}
+		cur := read()
+		for k := range hosts {
+			hi := max(4096, cf[k])
+			if cur[k] < 1 || cur[k] > hi {
+				c.Violation("conc/range", sfmt("at the quiescent point the effective weight of %s (configured %d) is %d; weights %v", hosts[k], cf[k], cur[k], cur), desc)
+				return
+			}
+		}
+		// ratings stop differing; one request every 2 back-offs
+		mmu.Lock()
+		for _, m := range created {
+			m.set(0, true)
+		}
+		mmu.Unlock()
+		adj := 0
+		prev := cur
+		var trail [][]int
+		for q := 0; q < 12; q++ {
+			time.Sleep(2 * backoff)
+			rb.ServeHTTP(httptest.NewRecorder(), httptest.NewRequest("GET", "http://c.test/", nil))
+			cur = read()
+			trail = append(trail, cur)
+			if !eqInts(cur, prev) {
+				adj++
+			}
+			prev = cur
+			if c10Prop(cur, cf) {
+				break
+			}
+		}
+		if !c10Prop(cur, cf) {
+			desc["weights_after_each_quiet_request"] = trail
+			c.Violation("conc/no-convergence", sfmt("after the racing phase, with equal ratings and %d requests 2 back-offs apart (%d adjustments observed), weights %v are not proportional to the configured %v", len(trail), adj, cur, cf), desc)
+			return
+		}
+		c.Count("conc_convergence_checks", 1)
+		c.Nontrivial(sfmt("conc/%v/%x", cf, hash64(sfmt("%v", ops))))
+		c.Count("conc_nontrivial", 1)
+	})
+	c.Require("conc_nontrivial", 2)
 }
